@@ -96,7 +96,7 @@ class ExtractError(Exception):
     pass
 
 
-def extract(features=None, overflow=True, deps=False, repo=None, target_dir=None, keep_target=False):
+def extract(features=None, overflow=True, deps=False, repo=None, target_dir=None, keep_target=False, crate="string_calculator"):
     """Returns (facts_dir, info). facts_dir contains <crate>.facts.json files."""
     repo = repo or repo_dir()
     th = tree_hash(repo)
@@ -131,7 +131,7 @@ def extract(features=None, overflow=True, deps=False, repo=None, target_dir=None
         if not ok:
             shutil.rmtree(tmp_out, ignore_errors=True)
             raise ExtractError("cargo check failed for %s:\n%s" % (config_name(features, overflow, deps), p.stdout[-3000:]))
-        want = os.path.join(tmp_out, "string_calculator.facts.json")
+        want = os.path.join(tmp_out, crate + ".facts.json")
         if features != [] and not os.path.exists(want):
             shutil.rmtree(tmp_out, ignore_errors=True)
             raise ExtractError("driver produced no fact file (freshness cache?) for %s\n%s" % (info["config"], p.stdout[-2000:]))
@@ -151,7 +151,7 @@ def extract(features=None, overflow=True, deps=False, repo=None, target_dir=None
 
 
 def load(features=None, overflow=True, deps=False, repo=None, crate="string_calculator", target_dir=None):
-    d, info = extract(features, overflow, deps, repo, target_dir=target_dir)
+    d, info = extract(features, overflow, deps, repo, target_dir=target_dir, crate=crate)
     p = os.path.join(d, crate + ".facts.json")
     with open(p) as fh:
         doc = json.load(fh)
